@@ -28,6 +28,11 @@ type Q struct {
 	GroupBy []string
 	Args    []string
 	Prepare bool
+	// Wrap > 0: white space that is NOT the grammar's (vertical tab, form
+	// feed, NEL, NBSP, line separator, ideographic space, BOM) is put in front
+	// of (odd) or behind (even) the text; the library's parser decides what
+	// the text then is, and the driver has to agree with it.
+	Wrap int
 }
 
 type Case struct {
@@ -49,6 +54,8 @@ func (c *Case) Summary() string {
 	}
 	return b.String()
 }
+
+var exoticSpace = []string{"\v", "\f", "\u0085", "\u00a0", "\u2028", "\u3000", "\ufeff", "\v \f", " \u00a0", "\u2003"}
 
 type facts struct{ multiRow, zeroRow, errPath bool }
 
@@ -78,6 +85,15 @@ func oracle(c *Case) (facts, error) {
 		for i, a := range q.Args {
 			args[i] = a
 		}
+		if q.Wrap > 0 {
+			ws := exoticSpace[q.Wrap%len(exoticSpace)]
+			if q.Wrap%2 == 1 {
+				text = ws + text
+			} else {
+				text = text + ws
+			}
+		}
+		_, libRejects := qref.Parse(text)
 		var got *fix.SQLRows
 		qerr := fix.Safe(func() error {
 			var r *sql.Rows
@@ -113,6 +129,13 @@ func oracle(c *Case) (facts, error) {
 		})
 		if fix.IsPanic(qerr) {
 			return f, fmt.Errorf("query %d %+q: %v", k, text, qerr)
+		}
+		if libRejects != nil {
+			f.errPath = true
+			if qerr == nil {
+				return f, fmt.Errorf("query %d %+q is not a sentence of the query grammar (%v: the library's parser rejects it) but the driver returned rows %v", k, text, libRejects, got.Rows)
+			}
+			continue
 		}
 		bound, ok := q.Tree.Bind(q.Args)
 		if !ok {
@@ -265,6 +288,11 @@ func drawCase(t *rapid.T, maxRecipe int) *Case {
 			q.GroupBy = q.GroupBy[:1]
 		}
 		c.Queries = append(c.Queries, q)
+		if rapid.IntRange(0, 5).Draw(t, "wrap?") == 0 {
+			w := q
+			w.Wrap = rapid.IntRange(1, 40).Draw(t, "wrap")
+			c.Queries = append(c.Queries, w)
+		}
 	}
 	return c
 }
